@@ -1607,6 +1607,11 @@ def proj_l1(x, radius=1, out=None):
     if out is None:
         out = x.space.element()
 
+    # The 1-norm of a space with constant weighting ``c`` is
+    # ``c * sum(|x_i|)``, hence the ball is ``{sum(|x_i|) <= radius / c}``
+    weighting = getattr(x.space, 'weighting', None)
+    radius = radius / getattr(weighting, 'const', 1.0)
+
     u = x.ufuncs.absolute()
     if u.ufuncs.sum() <= radius:
         out[:] = x
